@@ -11,9 +11,9 @@ pub fn run(tier: Tier, seed: u64) {
         "zkchannels_crypto::proofs::{SignatureProofBuilder, CommitmentProofBuilder, SignatureRequestProofBuilder, RangeConstraintBuilder}::generate_*",
         "zkchannels_crypto::pointcheval_sanders::Signature::{blind_and_randomize, randomize}",
     ]);
-    eng::bound("every random draw free (zero allowed); paths with at most one deviation from the shadow randomness inside the customer's message generation; two channels of one merchant; per channel establish + <= 1 payment (quick) / 2 payments (thorough) + close; every pair (customer-message atom, earlier atom in the merchant's view incl. public parameters) and every (message atom, secret held in the serialised customer state at send time)");
+    eng::bound("every random draw free (zero allowed); paths with at most one deviation from the shadow randomness inside the customer's message generation; two channels of one merchant; per channel establish + payments of 7 and 0 (quick) / 7, 0 and -3 (thorough) + close; every pair (customer-message atom, earlier atom in the merchant's view incl. public parameters) and every (message atom, secret held in the serialised customer state at send time)");
     eng::assumption("this is the necessary condition the property states (exact reuse / direct exposure), not zero-knowledge; values coinciding only for special randomness are not reuse: a pair is a violation when the two terms are equal for EVERY randomness (validity query)");
-    history(seed, if tier == Tier::Quick { 1 } else { 2 });
+    history(seed, if tier == Tier::Quick { 2 } else { 3 });
 }
 
 #[derive(Clone)]
@@ -199,7 +199,7 @@ fn history_path(seed: u64, payments: usize) {
         let mut ready = inactive.activate(pt, &w.cust).ok().expect("activate");
         what_if_close(&mut view, &format!("{}.close_from_ready", tag), &ready, &rng, |s, r| s.close(r), "state.revocation_pair.lock");
         for k in 0..payments {
-            let amt = if k == 0 { 7 } else { -3 };
+            let amt = [7i64, 0, -3][k % 3]; // a zero-value payment must renew nonce and revocation pair like any other
             sx::set_label("cust:start");
             let (started, start) = ready.start(&mut rng, amount(amt), &pctx, &w.cust).ok().expect("start");
             let secrets = secrets_of("started", &started);
